@@ -1,7 +1,7 @@
 (** C10 -- The tokenizer is total and loses nothing: every character, the right line.
     This file only restates theorems proved under Proofs/ and prints their assumptions. *)
 From Pakhi Require Import Base Float64 Syntax Tables Lexer.
-From Pakhi.Proofs Require Import LexTotal.
+From Pakhi.Proofs Require Import LexTotal LexLayout LexSpans.
 
 Theorem C10_lexer_total : forall src file,
   match tokenize src file with
@@ -12,3 +12,57 @@ Theorem C10_lexer_total : forall src file,
   end.
 Proof. exact lexer_total. Qed.
 Print Assumptions C10_lexer_total.
+
+(* On success the tokens in order account for every non-blank character of the source exactly once.
+   [accounts file rest pos line ts] (Proofs/LexSpans.v) says: rest = blanks ++ text(t1) ++ blanks ++ text(t2) ++ ... ++ blanks,
+   where text(t) is the lexeme (with its quotes for a string literal, the whole #...# block for a comment), the blanks are
+   spaces, tabs, CRs and newlines only, each token's span is where its text stands, its line is the true line, and the
+   list ends with the single end marker. *)
+Theorem C10_tokens_account_for_every_character : forall src file ts,
+  tokenize_spans src file = Ok ts -> accounts file src 0 1%N ts.
+Proof. exact lexer_accounts_for_source. Qed.
+Print Assumptions C10_tokens_account_for_every_character.
+
+(* every token before the end marker carries the 1-based number of the line it is written on (1 + the number of
+   newlines before its first character -- also after strings and comments that span lines), and its span holds its text *)
+Theorem C10_line_numbers_and_spans : forall src file ts t st ln,
+  tokenize_spans src file = Ok ts -> In (t, (st, ln)) ts -> t <> eot file ->
+  t_line t = (1 + count_newlines (firstn st src))%N /\ firstn ln (skipn st src) = token_text t.
+Proof. exact lexer_lines_and_spans. Qed.
+Print Assumptions C10_line_numbers_and_spans.
+
+(* one step of the tokenizer: a blank, or a token whose text is exactly the characters consumed *)
+Theorem C10_one_token : forall rest line file prev t n l, rest <> [] ->
+  consume rest line file prev = Ok (t, n, l) ->
+  match t with
+  | None => exists c r, rest = c :: r /\ is_blank c = true /\ n = 1 /\ l = count_newlines [c]
+  | Some tk => firstn n rest = token_text tk /\ n = length (token_text tk) /\ t_line tk = line /\ t_file tk = file /\
+               l = count_newlines (token_text tk) /\ tk <> eot file
+  end.
+Proof. exact consume_accounts. Qed.
+Print Assumptions C10_one_token.
+
+(* the plain token list is the span list without the spans *)
+Theorem C10_tokenize_is_spans : forall src file, tokenize src file = (do ts <- tokenize_spans src file; Ok (map fst ts)).
+Proof. reflexivity. Qed.
+Print Assumptions C10_tokenize_is_spans.
+
+(* the classification tables are the language's: regenerated from lexer.rs on every run and compared here *)
+Theorem C10_keyword_table :
+  map (fun w => assoc_text w keywords)
+      [[2472;2494;2478]; [2479;2470;2495]; [2437;2469;2476;2494]; [2482;2497;2474]; [2475;2494;2434]; [2475;2503;2480;2468];
+       [2469;2494;2478;2494;2451]; [2438;2476;2494;2480]; [2470;2503;2454;2494;2451]; [95;2470;2503;2454;2494;2451];
+       [2488;2468;2509;2479]; [2478;2495;2469;2509;2479;2494]; [2478;2465;2495;2441;2482]]%N
+  = map Some [TVar; TIf; TElse; TLoop; TFunction; TReturn; TBreak; TContinue; TPrint; TPrintNoEol; TBool true; TBool false; TImport]
+  /\ length keywords = 13.
+Proof. vm_compute. split; reflexivity. Qed.
+Print Assumptions C10_keyword_table.
+
+Theorem C10_operator_tables :
+  map (fun c => assoc_N c single_ops) [43; 42; 47; 37; 38; 124; 64; 59; 44; 40; 41; 123; 125; 91; 93]%N
+  = map Some [TPlus; TMul; TDiv; TRem; TAnd; TOr; TAt; TSemi; TComma; TLParen; TRParen; TLCurly; TRCurly; TLSquare; TRSquare]
+  /\ length single_ops = 15 /\
+  map (fun c => assoc_N c double_ops) [33; 61; 60; 62]%N
+  = map Some [(61, TNotEq, TNot); (61, TEqEq, TEqual); (61, TLe, TLt); (61, TGe, TGt)]%N /\ length double_ops = 4.
+Proof. vm_compute. repeat split; reflexivity. Qed.
+Print Assumptions C10_operator_tables.
